@@ -17,6 +17,29 @@ from .mir import callee_info
 from .guards import norm
 
 
+# Functions that rules refer to by name (events / anchors): never inlined automatically.
+ANCHORS = {
+    "AdtDeserializer::invalid_constructor_id", "AdtDeserializer::new", "AdtDeserializer::new_v0",
+    "AdtDeserializer::read_constructor", "AdtDeserializer::read_field", "AdtDeserializer::read_optional_field",
+    "AdtDeserializer::read_or_get_constructor_idx", "AdtDeserializer::record_field_index", "AdtMetadata::new",
+    "AdtSerializer<Output>::finish", "AdtSerializer<Output>::new", "AdtSerializer<Output>::new_v0",
+    "AdtSerializer<Output>::record_field_index", "AdtSerializer<Output>::write_constructor",
+    "AdtSerializer<Output>::write_evolution_header", "AdtSerializer<Output>::write_field",
+    "AdtSerializer<Output>::write_ordered_chunks", "DeserializationContext::new", "DeserializationContext::pop_region",
+    "DeserializationContext::pos", "DeserializationContext::push_region", "DeserializationContext::try_read_ref",
+    "DeserializationContext::state", "DeserializationContext::state_mut", "SerializationContext<Output>::state_mut",
+    "FieldPosition::new", "FieldPosition::to_byte", "InputRegion::empty", "InputRegion::new", "RefId::next",
+    "ResolvedInputRegion::unresolve", "SerializationContext<Output>::into_output", "SerializationContext<Output>::new",
+    "SerializationContext<Output>::pop_buffer", "SerializationContext<Output>::push_buffer",
+    "SerializationContext<Output>::store_ref_or_object", "State::get_ref_by_id", "State::get_string_by_id",
+    "State::store_ref", "State::store_string", "StringId::next", "checked_naive_local", "deserialize",
+    "deserialize_iterator", "serialize", "serialize_iterator", "serialize_to_byte_vec", "serialize_to_bytes",
+}
+LOOP_COMBINATORS = ("Iterator::try_for_each", "Iterator::for_each", "Iterator::try_fold", "Iterator::fold", "Iterator::all",
+                    "Iterator::any")
+CLOSURE_CALLS = ("FnOnce::call_once", "FnMut::call_mut", "Fn::call")
+
+
 class Path:
     __slots__ = ("events", "outcome")
 
@@ -66,10 +89,11 @@ def err_variant(t):
 
 
 class Walker:
-    def __init__(self, body, crate=None, inline=(), max_paths=3000, inline_depth=3):
+    def __init__(self, body, crate=None, inline=(), max_paths=3000, inline_depth=3, auto_inline=True):
         self.body = body
         self.crate = crate
         self.inline = set(inline)
+        self.auto_inline = auto_inline
         self.max_paths = max_paths
         self.inline_depth = inline_depth
         self.sites = itertools.count(1)
@@ -269,28 +293,71 @@ class Walker:
                     events.append(("call", next(self.sites), info["key"], info["base_key"], info["def"], args, info["targs"], None))
                     self._finish(events, ("panic", info["key"]), None, env)
                     return
-                # inlining of selected local helpers
-                if self.crate is not None and info["def"] in self.crate.bodies and depth < self.inline_depth and \
-                        (info["key"] in self.inline or info["base_key"] in self.inline):
-                    callee = self.crate.bodies[info["def"]]
-                    cenv = {"$mem": env["$mem"], "$dec": {}}
-                    for i, a in enumerate(args):
-                        cenv[i + 1] = a
-                    dest, tgt = t["dest"], t["t"]
-
-                    def k_after(ev2, ret, env2, _env=env, _dest=dest, _tgt=tgt, _body=body, _stack=stack, _depth=depth, _cont=cont):
-                        e3 = dict(_env)
-                        e3["$mem"] = env2["$mem"]
-                        self.write_place(_body, e3, _dest, ret, ev2)
-                        if _tgt is None:
-                            self._finish(ev2, ("diverge", "inlined"), None, e3)
-                        else:
-                            self._explore(_body, _tgt, e3, ev2, _stack, _depth, _cont)
-                    events.append(("inline", info["key"]))
-                    self._explore(callee, 0, cenv, events, stack, depth + 1, k_after)
+                # inlining: selected helpers, private non-anchor local helpers, directly invoked local closures
+                callee = None
+                cargs = args
+                if self.crate is not None and depth < self.inline_depth:
+                    cand = self.crate.bodies.get(info["def"]) if info["def"] else None
+                    if cand is not None and (info["key"] in self.inline or info["base_key"] in self.inline):
+                        callee = cand
+                    elif cand is not None and self.auto_inline and self._auto_inlinable(cand, stack):
+                        callee = cand
+                    elif info["base_key"] in CLOSURE_CALLS and args:
+                        c0 = mir.strip_refs(args[0])
+                        if c0[0] == "agg" and c0[1] == "closure" and c0[2] in self.crate.bodies and \
+                                (id(self.crate.bodies[c0[2]]), 0) not in stack:
+                            callee = self.crate.bodies[c0[2]]
+                            tup = args[1] if len(args) > 1 else ("agg", "tuple", None, None, [])
+                            elems = tup[4] if tup[0] == "agg" and tup[1] == "tuple" else [tup]
+                            cargs = [args[0]] + list(elems)
+                if callee is not None:
+                    self._inline(callee, cargs, t, body, env, events, stack, depth, cont, info["key"])
                     return
+                # loop-like iterator combinators taking a local closure: the closure body is explored once as the loop body
+                if self.crate is not None and info["base_key"] in LOOP_COMBINATORS and depth < self.inline_depth:
+                    clos = None
+                    for a in args[1:]:
+                        c0 = mir.strip_refs(a)
+                        if c0[0] == "agg" and c0[1] == "closure" and c0[2] in self.crate.bodies:
+                            clos = c0
+                    if clos is not None and (id(self.crate.bodies[clos[2]]), 0) not in stack:
+                        cb = self.crate.bodies[clos[2]]
+                        site = next(self.sites)
+                        res = ("call", info["key"], info["def"], args, site, info["targs"])
+                        elem = ("elem", args[0])
+                        cenv = {"$mem": env["$mem"], "$dec": {}, 1: clos}
+                        n_extra = cb.arg_count - 1
+                        extra = [elem] if n_extra == 1 else [("acc", args[1]), elem][:n_extra]
+                        for i, a in enumerate(extra):
+                            cenv[i + 2] = a
+                        events.append(("loop", info["key"], "begin", site))
+                        dest, tgt = t["dest"], t["t"]
+
+                        def k_loop(ev2, ret, env2, _env=env, _dest=dest, _tgt=tgt, _body=body, _stack=stack, _depth=depth,
+                                   _cont=cont, _res=res, _site=site, _info=info, _args=args):
+                            ev2.append(("loop", _info["key"], "end", _site, ret))
+                            ev2.append(("call", _site, _info["key"], _info["base_key"], _info["def"], _args, _info["targs"], _res))
+                            e3 = dict(_env)
+                            e3["$mem"] = env2["$mem"]
+                            self.write_place(_body, e3, _dest, _res, ev2)
+                            if _tgt is None:
+                                self._finish(ev2, ("diverge", "loop"), None, e3)
+                            else:
+                                self._explore(_body, _tgt, e3, ev2, _stack, _depth, _cont)
+                        self._explore(cb, 0, cenv, events, stack, depth + 1, k_loop)
+                        return
                 site = next(self.sites)
                 res = model_call(info, args)
+                if isinstance(res, tuple) and res and res[0] == "fork":
+                    opaque = ("call", info["key"], info["def"], args, site, info["targs"])
+                    events.append(("call", site, info["key"], info["base_key"], info["def"], args, info["targs"], opaque))
+                    for cond, val, result in res[1]:
+                        e2 = dict(env)
+                        ev2 = events + [("atom", cond, val)]
+                        self.write_place(body, e2, t["dest"], result, ev2)
+                        if t["t"] is not None:
+                            self._explore(body, t["t"], e2, ev2, stack, depth, cont)
+                    return
                 if res is None:
                     res = ("call", info["key"], info["def"], args, site, info["targs"])
                 events.append(("call", site, info["key"], info["base_key"], info["def"], args, info["targs"], res))
@@ -328,6 +395,38 @@ class Walker:
                 return
             self._finish(events, ("diverge", "term:" + k), None, env)
             return
+
+    def _auto_inlinable(self, cand, stack):
+        if cand.key in ANCHORS or cand.key.split("::{closure")[0] in ANCHORS:
+            return False
+        if cand.kind == "Closure":
+            return False
+        if cand.vis is None or cand.vis == "Public":
+            return False
+        if cand.impl and cand.impl.get("trait"):
+            return False                 # trait impl methods are semantic units (codecs, sinks, sources)
+        if cand.in_trait:
+            return False
+        if (id(cand), 0) in stack:
+            return False
+        return len(cand.blocks) <= 120
+
+    def _inline(self, callee, args, t, body, env, events, stack, depth, cont, key):
+        cenv = {"$mem": env["$mem"], "$dec": {}}
+        for i, a in enumerate(args):
+            cenv[i + 1] = a
+        dest, tgt = t["dest"], t["t"]
+
+        def k_after(ev2, ret, env2, _env=env, _dest=dest, _tgt=tgt, _body=body, _stack=stack, _depth=depth, _cont=cont):
+            e3 = dict(_env)
+            e3["$mem"] = env2["$mem"]
+            self.write_place(_body, e3, _dest, ret, ev2)
+            if _tgt is None:
+                self._finish(ev2, ("diverge", "inlined"), None, e3)
+            else:
+                self._explore(_body, _tgt, e3, ev2, _stack, _depth, _cont)
+        events.append(("inline", key))
+        self._explore(callee, 0, cenv, events, stack, depth + 1, k_after)
 
     def _decide(self, op, t):
         """constant folding of a switch"""
@@ -423,6 +522,15 @@ def model_call(info, args):
             return ("errprop", x[1])
         if x[0] == "agg" and x[2] == "core::result::Result" and x[3] == "Err":
             return x
+    if k in ("Result<Option<T>, E>::transpose",) and args:
+        x = args[0]
+        cond = ("discr", x, ((0, "Ok/Some"), (1, "Ok/None"), (2, "Err")))
+        some = lambda v: ("agg", "adt", "core::option::Option", "Some", [v])
+        return ("fork", [
+            (cond, 0, some(("agg", "adt", "core::result::Result", "Ok", [("okval", x)]))),
+            (cond, 1, ("agg", "adt", "core::option::Option", "None", [])),
+            (cond, 2, some(("agg", "adt", "core::result::Result", "Err", [("errval", x)]))),
+        ])
     if bk in ("IntoIterator::into_iter",) and args and "Iterator" not in k.split(" as ")[0]:
         return None
     if k in ("<T as From<T>>::from", "<T as Into<U>>::into") and args:
@@ -442,8 +550,8 @@ def atom_variant(a):
     return rest[0] if len(rest) == 1 else None
 
 
-def walk(body, crate=None, inline=(), args=None, max_paths=3000):
-    return Walker(body, crate, inline, max_paths).run(args)
+def walk(body, crate=None, inline=(), args=None, max_paths=3000, auto_inline=True):
+    return Walker(body, crate, inline, max_paths, auto_inline=auto_inline).run(args)
 
 
 # ------------------------------------------------------------------------------------------------ pretty
